@@ -31,15 +31,36 @@ def lossless(s):
     return ""
 
 
-INFER_STUB = ("stub: cdd.shared.cst_utils.infer_cst_type -> constant UnchangingLine under the engine (it hashes the words "
+INFER_STUB = ("stub: cdd.shared.cst_utils.infer_cst_type -> constant UnchangingLine for SYMBOLIC statements under the engine, the real function for concrete ones (it hashes the words "
               "into an OrderedDict/frozenset, which realises them; the node *kind* is not part of the tiling property; "
               "line accounting and get_construct_name run unmodified; replays use the real function)")
 
 
 def _unchanging(statement_stripped, words):
+    """constant for symbolic statements; the real classification for concrete ones (so that e.g. comment nodes keep their kind)"""
     from cdd.shared.cst_utils import UnchangingLine
 
+    symbolic = True
+    try:
+        from crosshair.tracers import NoTracing
+        from crosshair.util import CrossHairValue
+
+        with NoTracing():
+            symbolic = isinstance(statement_stripped, CrossHairValue)
+    except ImportError:  # pragma: no cover
+        symbolic = False
+    if not symbolic and _REAL_INFER[0] is not None:
+        return _REAL_INFER[0](statement_stripped, words)
     return UnchangingLine
+
+
+_REAL_INFER = [None]
+try:
+    import cdd.shared.cst_utils as _cu0
+
+    _REAL_INFER[0] = _cu0.infer_cst_type
+except Exception:  # pragma: no cover
+    pass
 
 
 def tiles(s):
